@@ -900,7 +900,20 @@ impl<'a> Gen<'a> {
                         u.offset = Some(self.rng.below(3) as u64);
                     }
                 }
-                let op = *self.rng.pick(&[SetOp::Union, SetOp::UnionAll, SetOp::Intersect, SetOp::Except]);
+                let mut op = *self.rng.pick(&[SetOp::Union, SetOp::UnionAll, SetOp::Intersect, SetOp::Except]);
+                if self.cfg.sqlite_like() && u.groups.is_empty() && u.unions.is_empty() && self.rng.chance(1, 8) {
+                    // SQLite has no parenthesised operands: a nested compound is written flat, which is the same
+                    // query when the inner and the outer operator are one and the same associative operator
+                    let mut inner = self.simple_select(0, None);
+                    while inner.items.len() > u.items.len() {
+                        inner.items.pop();
+                        inner.out.pop();
+                    }
+                    if inner.items.len() == u.items.len() && inner.groups.is_empty() {
+                        op = *self.rng.pick(&[SetOp::Union, SetOp::UnionAll, SetOp::Intersect]);
+                        u.unions.push((op, inner));
+                    }
+                }
                 s.unions.push((op, u));
             }
         }
